@@ -17,7 +17,12 @@ for d in seeded/${1:-*}/; do
     C12d-*) chk=C03 ;;
     *) chk=$prop ;;
   esac
-  res=$(LINES_MAX=3 bin/try_patch.sh "$d/patch.diff" "$chk" 2>&1)
+  # first pass with the instrumented builds only; the full check (release-profile rerun,
+  # shipping-build stages) only if that did not report it
+  res=$(GBMC_FAST=1 LINES_MAX=3 bin/try_patch.sh "$d/patch.diff" "$chk" 2>&1)
+  if ! echo "$res" | grep -q "^VIOLATION property=$chk"; then
+    res=$(LINES_MAX=3 bin/try_patch.sh "$d/patch.diff" "$chk" 2>&1)
+  fi
   if echo "$res" | grep -q "^VIOLATION property=$chk"; then v=caught; elif echo "$res" | grep -q "^OK $chk"; then v=MISSED; else v=error; fi
   key=$(echo "$res" | grep -m1 "^  key:" | sed 's/^  key: //')
   printf "%s\t%s\t%s\t%s\t%s\n" "$n" "$prop" "$chk" "$v" "$key" | tee -a "$OUT.tmp"
